@@ -223,4 +223,19 @@ theorem C01_complete_prompt (h : Frame → Bool) (tr : Bool) (chunks : List Byte
     exact List.mem_map.mpr ⟨(i, f, n), hmem, rfl⟩
   exact mem_delivered tr _ f hf hd p hp
 
+/-- prompt, **from every link state** with an empty buffer -/
+theorem C01_complete_prompt_any_state (h : Frame → Bool) (st : RxState) (hb : st.buf = []) (chunks : List Bytes) (i n : Nat)
+    (f : Frame) (p : HLPacket)
+    (hok : tryFrame (chunks.flatten.drop i) = .ok f n) (hd : isAck f = false) (hp : f.hl = some p)
+    (hfree : ∀ j, j < i → ∀ e, extent (chunks.flatten.drop j) = some e → j + e ≤ i) :
+    f ∈ deliveredOf (session h st chunks).2 := by
+  rw [C01_chunking_any_state h st hb]
+  have hmem := C01_complete chunks.flatten i n f hok hfree
+  have hf : f ∈ (run tryFrame chunks.flatten).1 := by
+    have h1 := located_frames zbossScanner chunks.flatten
+    simp only [zbossScanner] at h1
+    rw [← h1]
+    exact List.mem_map.mpr ⟨(i, f, n), hmem, rfl⟩
+  exact mem_delivered st.transport _ f hf hd p hp
+
 end Zboss.Rx
